@@ -90,6 +90,26 @@ void h_uncond_signal(void) {
   VERIF_CANARY();
 }
 
+/* ---- no return from inside the spin: for ANY number of polls (loop contract with an inferred frame: whatever the loop
+   writes -- the local it spins on, a poll counter somebody may add -- is arbitrary at the loop head).  The pointer the
+   loop leaves behind is therefore arbitrary too, so this job looks at control flow only: safety checks are off, the push
+   is accepted with any arguments, and the one obligation is "signal does not return without having called the push". */
+int g_ner_pushed;
+void push_any_contract(myth_thread_queue_t q, myth_thread_t th)
+  __CPROVER_requires(1) __CPROVER_assigns(g_ner_pushed) __CPROVER_ensures(g_ner_pushed == 1);
+static inline void verif_rd_th_any(volatile void * p) {
+  if (p != (volatile void *)&U.th) return;
+  if (nondet_bool()) U.th = &TH0;
+}
+void h_uncond_signal_no_early_return(void) {
+  env_setup();
+  g_ner_pushed = 0;
+  U.th = nondet_bool() ? &TH0 : 0;
+  (void)myth_uncond_signal_body(&U);
+  __CPROVER_assert(g_ner_pushed == 1, "uncond_signal: never returns without having handed a waiter to the scheduler, however long it has been polling");
+  VERIF_CANARY();
+}
+
 /* ================================================================== full/empty lock */
 myth_felock_t FE;
 int g_hold, g_waits, g_signalled, g_unlocked;
